@@ -468,6 +468,136 @@ def _break_monotone(cond, loopvars):
 
 
 def rule_gfx(ctx, res, sizes):
+    """symbolic analysis (all arguments) first; when the loops are written in
+    a form it cannot follow, whole-function evaluation on symbolic sheet
+    memory for a fixed set of calls"""
+    mark = len(res.instances)
+    try:
+        _rule_gfx_symbolic(ctx, res, sizes)
+        if not any(i.verdict == 'UNDECIDED' for i in res.instances[mark:]):
+            return
+        why = next(i.detail for i in res.instances[mark:]
+                   if i.verdict == 'UNDECIDED')
+    except AnalysisError as e:
+        why = str(e)
+    # drop the partial results of the symbolic attempt; evaluate instead
+    kept = [i for i in res.instances[mark:] if i.verdict != 'UNDECIDED'
+            and 'set_sprite' not in i.where and 'get_sprite' not in i.where]
+    del res.instances[mark:]
+    res.instances.extend(kept)
+    G = 'pico8.gfx.gfx:Gfx'
+    ok = _set_sprite_evaluated(ctx, res, ctx.model.func(G + '.set_sprite'),
+                               sizes, why)
+    _get_sprite_evaluated(ctx, res, ctx.model.func(G + '.get_sprite'), sizes,
+                          {True: 'low', False: 'high'})
+
+
+SET_SPRITE_SHAPES = {
+    'rect 8x8': [8] * 8, 'rect 9x9': [9] * 9, 'ragged 3,8,12,1': [3, 8, 12, 1],
+    'first row short 4,8,12': [4, 8, 12], 'tall 1x12': [1] * 12,
+    'empty rows 0,5,0': [0, 5, 0], 'wide 20': [20, 20]}
+
+
+def _set_sprite_evaluated(ctx, res, f, sizes, why):
+    from ..absint import cx as CX
+    G = 'pico8.gfx.gfx:Gfx'
+    size = sizes.get('gfx', 8192)
+    mem = [BV.source(('mem', 'gfx', k), 8) for k in range(size)]
+    cxi = CX.Cx(ctx.model, ctx.consts)
+    cls = ctx.model.cls(G)
+    try:
+        transparent = ctx.consts.module_const('pico8.gfx.gfx', 'TRANSPARENT')
+    except AnalysisError:
+        transparent = None
+    cases = []
+    for sid in (0, 15, 17, 100, 240, 255):
+        for name, lens in SET_SPRITE_SHAPES.items():
+            for (xo, yo) in ((0, 0), (2, 0), (5, 7)):
+                cases.append((sid, name, lens, xo, yo))
+    bad = None
+    raised = None
+    try:
+        for (sid, name, lens, xo, yo) in cases:
+            rows = []
+            for r, n in enumerate(lens):
+                row = []
+                for c in range(n):
+                    if isinstance(transparent, int) and (r + c) % 5 == 4:
+                        row.append(transparent)
+                    else:
+                        row.append(BV.source(('pix', r, c), 4))
+                rows.append(row)
+            state = {}
+
+            def go():
+                o = CX.Obj(cls)
+                o.attrs['_data'] = CX.Seq('bytearray', list(mem))
+                o.attrs['_version'] = 8
+                state['o'] = o
+                return cxi.call(cxi.getattr(o, 'set_sprite'),
+                                [sid, [list(r) for r in rows]],
+                                {'tile_x_offset': xo, 'tile_y_offset': yo})
+            paths = cxi.explore(go)
+            if len(paths) != 1 or paths[0][0]:
+                raise CX.CxError('set_sprite branches on pixel values')
+            kind, val = paths[0][1]
+            call = 'set_sprite({}, <{}>, tile_x_offset={}, tile_y_offset={})' \
+                .format(sid, name, xo, yo)
+            if kind == 'raise':
+                raised = bad = '{} raises {}'.format(call, val.tname)
+                break
+            want = list(mem)
+            for r, row in enumerate(rows):
+                for c, v in enumerate(row):
+                    if not isinstance(v, BV):
+                        continue
+                    px = (sid % 16) * 8 + xo + c
+                    py = (sid // 16) * 8 + yo + r
+                    if px > 127 or py > 127:
+                        continue
+                    b = want[py * 64 + px // 2]
+                    cells = list(b.cells) + [ZERO] * (8 - len(b.cells))
+                    for k in range(4):
+                        cells[k + (4 if px % 2 else 0)] = v.cell(k)
+                    want[py * 64 + px // 2] = BV(cells)
+            got = state['o'].attrs['_data'].items
+            if len(got) != size:
+                bad = '{} changes the size of the region to {}'.format(
+                    call, len(got))
+                break
+            for i in range(size):
+                g = got[i] if isinstance(got[i], BV) else BV.const(got[i], 8)
+                if g != want[i]:
+                    bad = ('{}: byte {} (pixel row {}, x {}..{}) becomes {} '
+                           'instead of {}'.format(
+                               call, i, i // 64, (i % 64) * 2,
+                               (i % 64) * 2 + 1, g, want[i]))
+                    break
+            if bad:
+                break
+    except AnalysisError as e:
+        res.undecided('R-C17-frame', f.qual, 'set_sprite loops',
+                      'loops not in the recognised form ({}) and whole-'
+                      'function evaluation could not follow them: {}'.format(
+                          why[:80], str(e)[:100]), f.loc)
+        return False
+    n = len(cases)
+    res.check(bad is None, 'R-C17-frame', f.qual,
+              'set_sprite changes the addressed nibbles and nothing else '
+              '(evaluated)',
+              '{} calls on symbolic sheet memory and symbolic pixels: 6 ids '
+              'x {} shapes (rectangular, ragged, crossing the right and '
+              'bottom edges, with TRANSPARENT holes) x 3 offsets'.format(
+                  n, len(SET_SPRITE_SHAPES)),
+              bad or '', f.loc, semantic=True)
+    res.check(raised is None, 'R-C17-bounds', f.qual,
+              'set_sprite: every sheet access in bounds (evaluated)',
+              '{} calls evaluated, none raises'.format(n), raised or '',
+              f.loc, semantic=True)
+    return bad is None
+
+
+def _rule_gfx_symbolic(ctx, res, sizes):
     G = 'pico8.gfx.gfx:Gfx'
     # ---- set_sprite -------------------------------------------------------
     f = ctx.model.func(G + '.set_sprite')
